@@ -45,6 +45,47 @@ Global Hint Rewrite ul_fi ul_stage ul_mb ul_buf ul_tmpOut ud_fi ud_stage ud_mb u
 Ltac kp Hst := unfold keeps; ss; autorewrite with upd; ss; autorewrite with upd; ss; rewrite ?Hst; cbn [bst is_cb];
   repeat split; auto; try discriminate.
 
+(* before dstage_init has run for the frame: no dictionary, or the caller's *)
+Definition pre_frame (d : ddict) : Prop :=
+  0 <= dd_dictSize d /\
+  match dd_dict d with PNull => dd_dictSize d = 0 | PTmp _ => False | PAbs _ => True end.
+(* the invariant tying the bookkeeping to the state of Model.FrameD *)
+Definition J (s : dstate) (d : ddict) : Prop :=
+  if bst (d_stage s)
+  then sizes (d_maxBlock s) (d_maxBuf s) (linked s) /\
+       ddI (d_maxBlock s) (d_maxBuf s) (linked s) (is_fl (d_stage s)) d
+  else pre_frame d.
+
+Lemma pre_frame_reset d : pre_frame (dd_reset d).
+Proof. destruct d; unfold pre_frame; cbn. split; [lia|reflexivity]. Qed.
+
+Lemma fin_ops s' (r : ddict * list mop) (P : mop -> Prop) :
+  Forall P (snd r) ->
+  Forall P (snd (match d_stage s' with GetFrameHeader => (dd_reset (fst r), snd r) | _ => r end)).
+Proof. intros H. destruct (d_stage s'); exact H. Qed.
+Lemma fin_J s s' (r : ddict * list mop) fl :
+  keeps s s' -> sizes (d_maxBlock s) (d_maxBuf s) (linked s) ->
+  ddI (d_maxBlock s) (d_maxBuf s) (linked s) fl (fst r) -> (d_stage s' = FlushOut -> fl = true) ->
+  J s' (fst (match d_stage s' with GetFrameHeader => (dd_reset (fst r), snd r) | _ => r end)).
+Proof.
+  intros (K1 & K2 & K3 & K4 & K5) Sz I Hfl.
+  assert (L : linked s' = linked s) by (unfold linked; rewrite K1; reflexivity).
+  unfold J. rewrite L, K2, K3.
+  destruct (d_stage s') eqn:E'; cbn [fst snd bst is_fl];
+    try (destruct K4 as [K4|K4]; discriminate K4);
+    try (split; [exact Sz|eapply ddI_weaken; exact I]).
+  - apply pre_frame_reset.
+  - split; [exact Sz|]. rewrite (Hfl eq_refl) in I. exact I.
+Qed.
+
+(* the shape of dd_step's case for the two block-decoding stages *)
+Lemma sel_cases (oc : outcome) (st' : dstage) (a b : ddict * list mop) :
+  ((match oc with Ret _ => False | _ => True end) /\ (st' = GetBlockHeader \/ st' = FlushOut) /\
+   match oc, st' with Ret _, _ => b | _, GetBlockHeader | _, FlushOut => a | _, _ => b end = a)
+  \/ (match oc, st' with Ret _, _ => b | _, GetBlockHeader | _, FlushOut => a | _, _ => b end = b /\
+      (st' = FlushOut -> match oc with Ret _ => True | _ => False end)).
+Proof. destruct oc, st'; cbn; auto 6; right; split; auto; discriminate. Qed.
+
 Section Sess.
 Variable bdec : list byte -> list byte -> option (list byte).
 
@@ -98,5 +139,141 @@ Proof.
   - apply k_gbh; auto. - apply k_sbh; auto. - apply k_cd; auto. - apply k_gbc; auto.
   - apply k_gcb; auto. - apply k_scb; auto. - apply k_fo; rewrite Hst; reflexivity.
   - apply k_gs; auto. - apply k_ss; auto.
+Qed.
+
+(* ---- facts about the block decode step that the bookkeeping needs ---- *)
+Lemma zdrop_app_len (a c : list byte) : zdrop (zlen a) (a ++ c) = c.
+Proof. unfold zdrop, zlen. rewrite Nat2Z.id. rewrite skipn_app, skipn_all, Nat.sub_diag. reflexivity. Qed.
+Lemma fo_tmpOut o l : d_tmpOut (l_s (fst (do_flushOut o l))) = d_tmpOut (l_s l).
+Proof. unfold do_flushOut. brute; ss; autorewrite with upd; ss; reflexivity. Qed.
+
+Lemma cblock_facts o l sel :
+  match snd (do_cblock bdec o l sel) with
+  | Ret _ => True
+  | _ => zlen (if d_maxBlock (l_s l) <=? l_cap l then zdrop (zlen (l_out l)) (l_out (fst (do_cblock bdec o l sel)))
+               else d_tmpOut (l_s (fst (do_cblock bdec o l sel)))) <= d_maxBlock (l_s l) /\
+         (d_stage (l_s (fst (do_cblock bdec o l sel))) = FlushOut -> (d_maxBlock (l_s l) <=? l_cap l) = false)
+  end.
+Proof.
+  unfold do_cblock.
+  destruct (fi_bcFlag (d_fi (l_s l)) =? 0).
+  - destruct (negb true); [ss; exact I|].
+    match goal with |- context [match ?d with Some c => _ | None => _ end] => destruct d as [c|] eqn:ED end; [|ss; exact I].
+    assert (Hc : zlen c <= d_maxBlock (l_s l)).
+    { destruct (bdec _ _) as [c0|]; [|discriminate]. destruct (zlen c0 <=? d_maxBlock (l_s l)) eqn:EL; [|discriminate].
+      injection ED as <-. apply Z.leb_le in EL. exact EL. }
+    rewrite ud_mb. destruct (d_maxBlock (l_s l) <=? l_cap l) eqn:EC.
+    + ss. rewrite zdrop_app_len. split; [exact Hc|discriminate].
+    + match goal with |- context [do_flushOut o ?l1] => pose proof (fo_tmpOut o l1) as T; destruct (do_flushOut o l1) as [l2 oc2] eqn:EF end.
+      ss. assert (NR : match oc2 with Ret _ => False | _ => True end).
+      { revert EF. unfold do_flushOut. brute; match goal with H : (_, _) = (_, _) |- _ => injection H as <- <- end; exact I. }
+      destruct oc2; [| |contradiction]; (split; [rewrite T; exact Hc|reflexivity]).
+  - match goal with |- context [negb ?b] => destruct (negb b) end; [ss; exact I|].
+    match goal with |- context [match ?d with Some c => _ | None => _ end] => destruct d as [c|] eqn:ED end; [|ss; exact I].
+    ss.
+    assert (Hc : zlen c <= d_maxBlock (l_s l)).
+    { destruct (bdec _ _) as [c0|]; [|discriminate]. destruct (zlen c0 <=? d_maxBlock (l_s l)) eqn:EL; [|discriminate].
+      injection ED as <-. apply Z.leb_le in EL. exact EL. }
+    rewrite ud_mb. ss. destruct (d_maxBlock (l_s l) <=? l_cap l) eqn:EC.
+    + ss. rewrite zdrop_app_len. split; [exact Hc|discriminate].
+    + match goal with |- context [do_flushOut o ?l1] => pose proof (fo_tmpOut o l1) as T; destruct (do_flushOut o l1) as [l2 oc2] eqn:EF end.
+      ss. assert (NR : match oc2 with Ret _ => False | _ => True end).
+      { revert EF. unfold do_flushOut. brute; match goal with H : (_, _) = (_, _) |- _ => injection H as <- <- end; exact I. }
+      destruct oc2; [| |contradiction]; (split; [rewrite T; exact Hc|reflexivity]).
+Qed.
+
+Lemma out_delta_len l l' : acct l l' -> zlen (out_delta l l') = l_cap l - l_cap l'.
+Proof.
+  unfold acct, out_delta. intros (A1 & A2 & A3 & A4). pose proof (zlen_nonneg (l_out l)).
+  rewrite zlen_zdrop by lia. lia.
+Qed.
+
+(* one iteration inside the block stages *)
+Lemma dd_step_block o dst l d :
+  wf (l_s l) -> 0 <= l_cap l -> bst (d_stage (l_s l)) = true -> J (l_s l) d ->
+  Forall (op_ok (d_maxBuf (l_s l)) dst (dst + zlen (l_out l) + l_cap l))
+         (snd (dd_step o dst l (fst (iter bdec o l)) (snd (iter bdec o l)) d)) /\
+  match snd (iter bdec o l) with
+  | Ret _ => True
+  | _ => J (l_s (fst (iter bdec o l))) (fst (dd_step o dst l (fst (iter bdec o l)) (snd (iter bdec o l)) d))
+  end.
+Proof.
+  intros W Hc Hb HJ. unfold J in HJ. rewrite Hb in HJ. destruct HJ as [Sz I].
+  pose proof (iter_keeps o l Hb) as K.
+  pose proof (iter_post bdec o l W Hc) as [A _].
+  pose proof (zlen_nonneg (l_out l)) as Hlo.
+  assert (KF : d_stage (l_s (fst (iter bdec o l))) = FlushOut -> is_cb (d_stage (l_s l)) = true) by apply K.
+  set (P := op_ok (d_maxBuf (l_s l)) dst (dst + zlen (l_out l) + l_cap l)).
+  assert (G : forall r fl, ddI (d_maxBlock (l_s l)) (d_maxBuf (l_s l)) (linked (l_s l)) fl (fst r) ->
+              ((match snd (iter bdec o l) with Ret _ => False | _ => True end) ->
+               d_stage (l_s (fst (iter bdec o l))) = FlushOut -> fl = true) -> Forall P (snd r) ->
+              Forall P (snd (match d_stage (l_s (fst (iter bdec o l))) with GetFrameHeader => (dd_reset (fst r), snd r) | _ => r end)) /\
+              match snd (iter bdec o l) with Ret _ => True | _ =>
+                J (l_s (fst (iter bdec o l))) (fst (match d_stage (l_s (fst (iter bdec o l))) with GetFrameHeader => (dd_reset (fst r), snd r) | _ => r end)) end).
+  { intros r fl I1 Hfl HP. split; [apply fin_ops; exact HP|].
+    revert Hfl. destruct (snd (iter bdec o l)); intros Hfl; auto; apply (fin_J _ _ r fl K Sz I1); apply Hfl; exact Logic.I. }
+  assert (NF : forall fl : bool, (match snd (iter bdec o l) with Ret _ => False | _ => True end) ->
+               d_stage (l_s (fst (iter bdec o l))) = FlushOut -> is_cb (d_stage (l_s l)) = false -> fl = true).
+  { intros fl _ E N. rewrite (KF E) in N. discriminate. }
+  assert (CB : is_cb (d_stage (l_s l)) = true ->
+     (match snd (iter bdec o l) with Ret _ => True | _ =>
+        (d_stage (l_s (fst (iter bdec o l))) = GetBlockHeader \/ d_stage (l_s (fst (iter bdec o l))) = FlushOut) ->
+        d_stage (l_s l) <> FlushOut ->
+        zlen (if d_maxBlock (l_s l) <=? l_cap l then out_delta l (fst (iter bdec o l)) else d_tmpOut (l_s (fst (iter bdec o l))))
+          <= d_maxBlock (l_s l) /\
+        (d_stage (l_s (fst (iter bdec o l))) = FlushOut -> (d_maxBlock (l_s l) <=? l_cap l) = false) end)).
+  { intros Hcb. unfold iter. destruct (d_stage (l_s l)) eqn:Hst; try discriminate Hcb.
+    - unfold do_getCBlock. destruct (_ <? _).
+      + ss. intros [E|E]; discriminate.
+      + pose proof (cblock_facts o (adv l (d_tmpInTarget (l_s l))) (ztake (d_tmpInTarget (l_s l)) (l_src l))) as F.
+        ss. unfold out_delta. destruct (snd (do_cblock _ _ _ _)); auto.
+    - unfold do_storeCBlock. destruct (_ <? _).
+      + ss. rewrite Hst. intros [E|E]; discriminate.
+      + match goal with |- context [do_cblock bdec o ?l1 ?sel] => pose proof (cblock_facts o l1 sel) as F end.
+        ss. unfold out_delta. destruct (snd (do_cblock _ _ _ _)); auto.
+    - destruct (snd (do_flushOut o l)); auto; intros _ N; exfalso; apply N; reflexivity. }
+  unfold dd_step. cbv zeta.
+  destruct (d_stage (l_s l)) eqn:Hst; try discriminate Hb; cbv iota beta.
+  - apply (G (d, []) false); [exact I|intros N E; apply (NF false N E eq_refl)|constructor].
+  - apply (G (d, []) false); [exact I|intros N E; apply (NF false N E eq_refl)|constructor].
+  - (* copyDirect *)
+    assert (Hl : zlen (out_delta l (fst (iter bdec o l))) = l_cap l - l_cap (fst (iter bdec o l))) by (apply out_delta_len; exact A).
+    destruct (dd_copyDirect_ok _ _ (linked (l_s l)) (o_dstnull o) d (dst + zlen (l_out l)) dst (out_delta l (fst (iter bdec o l)))
+                (dst + zlen (l_out l) + l_cap l) Sz I) as [C1 C2]; [lia|unfold acct in A; lia|].
+    apply (G _ false); [exact C2|intros N E; apply (NF false N E eq_refl)|exact C1].
+  - apply (G (d, []) false); [exact I|intros N E; apply (NF false N E eq_refl)|constructor].
+  - (* getCBlock *)
+    specialize (CB eq_refl).
+    match goal with |- context [dd_cblock ?mb ?mbuf ?lk ?dn d ?dp dst ?cap ?c] =>
+      destruct (sel_cases (snd (iter bdec o l)) (d_stage (l_s (fst (iter bdec o l)))) (dd_cblock mb mbuf lk dn d dp dst cap c) (d, []))
+        as [(N1 & N2 & ->)|(-> & N3)];
+      [destruct (dd_cblock_ok mb mbuf lk dn d dp dst cap c Sz I) as [C1 C2]|] end.
+    + lia. + exact Hc.
+    + destruct (snd (iter bdec o l)); try contradiction; apply CB; auto; discriminate.
+    + apply (G _ _ C2).
+      * intros _ E. destruct (snd (iter bdec o l)); try contradiction;
+          (destruct (CB N2) as [_ CB2]; [discriminate|]; specialize (CB2 E); unfold decode_direct; rewrite CB2; reflexivity).
+      * unfold P. exact C1.
+    + apply (G (d, []) false); [exact I| |constructor].
+      intros N E. specialize (N3 E). destruct (snd (iter bdec o l)); contradiction.
+  - (* storeCBlock *)
+    specialize (CB eq_refl).
+    match goal with |- context [dd_cblock ?mb ?mbuf ?lk ?dn d ?dp dst ?cap ?c] =>
+      destruct (sel_cases (snd (iter bdec o l)) (d_stage (l_s (fst (iter bdec o l)))) (dd_cblock mb mbuf lk dn d dp dst cap c) (d, []))
+        as [(N1 & N2 & ->)|(-> & N3)];
+      [destruct (dd_cblock_ok mb mbuf lk dn d dp dst cap c Sz I) as [C1 C2]|] end.
+    + lia. + exact Hc.
+    + destruct (snd (iter bdec o l)); try contradiction; apply CB; auto; discriminate.
+    + apply (G _ _ C2).
+      * intros _ E. destruct (snd (iter bdec o l)); try contradiction;
+          (destruct (CB N2) as [_ CB2]; [discriminate|]; specialize (CB2 E); unfold decode_direct; rewrite CB2; reflexivity).
+      * unfold P. exact C1.
+    + apply (G (d, []) false); [exact I| |constructor].
+      intros N E. specialize (N3 E). destruct (snd (iter bdec o l)); contradiction.
+  - (* flushOut *)
+    destruct (dd_flushOut_ok _ _ (linked (l_s l)) (o_dstnull o) d (dst + zlen (l_out l)) dst (l_cap l) Sz I) as [C1 C2]; [lia|lia|].
+    apply (G _ true); [exact C2|reflexivity|]. unfold P. rewrite <- Z.add_assoc in *. exact C1.
+  - apply (G (d, []) false); [exact I|intros N E; apply (NF false N E eq_refl)|constructor].
+  - apply (G (d, []) false); [exact I|intros N E; apply (NF false N E eq_refl)|constructor].
 Qed.
 End Sess.
